@@ -150,7 +150,8 @@ def main():
             elif op == "new":
                 from pathlib import Path
                 mod = importlib.import_module("protocol_code_generator.generate.code_generator")
-                gen = mod.ProtocolCodeGenerator(Path(step["xml"]))
+                gen = (mod.ProtocolCodeGenerator(input_root=Path(step["xml"])) if step.get("keyword")
+                       else mod.ProtocolCodeGenerator(Path(step["xml"])))
                 if step.get("slot"):
                     slots[step["slot"]] = gen
                 r["generator_file"] = mod.__file__
@@ -163,7 +164,10 @@ def main():
                     gen = slots[step["slot"]]
                 try:
                     with contextlib.redirect_stdout(buf):
-                        gen.generate(Path(step["out"]))
+                        if step.get("keyword"):
+                            gen.generate(output_root=Path(step["out"]))
+                        else:
+                            gen.generate(Path(step["out"]))
                     r["status"] = "ok"
                 except Exception as e:  # noqa
                     r["status"] = type(e).__name__
